@@ -268,6 +268,21 @@ def gen_plan(streams, tier):
             ops.append({"o": o, "shuffle": {"fz": sorted(rnd.sample(range(N), rnd.randrange(0, N))) if rnd.random() < 0.5 else []}})
             lens.append(N)
             strs.append(strs[o])
+        elif x < p_pattern + p_mut + 0.16:
+            # the same query on both sides of one or two mutators of that object (a value remembered by the
+            # first call must not be handed out again once the object has changed)
+            if rnd.random() < 0.6:
+                q = [rnd.choice(("get_full_phosphostatus_kappa_distribution", "get_kappa_after_phosphorylation", "get_phosphosequence",
+                                 "get_phosphosites", "get_HTMLColorString", "get_all_phosphorylatable_sites")), [], {}]
+            else:
+                q = gen_query(rnd, N, 0.0)
+            ops.append({"o": o, "q": copy.deepcopy(q)})
+            for _ in range(rnd.choice((1, 1, 2))):
+                m = gen_mutator(rnd, strs[o])
+                if m[0] == "clear_phosphosites" and rnd.random() < 0.7:
+                    m = gen_mutator(rnd, strs[o])
+                ops.append({"o": o, "m": m})
+                ops.append({"o": o, "q": copy.deepcopy(q)})
         else:
             q = gen_query(rnd, N, p_invalid)
             ops.append({"o": o, "q": q})
